@@ -174,6 +174,16 @@ pub fn value_ok(a: &ArgSpec, v: &[u8]) -> Result<(), &'static str> {
             }
             Err(_) => Err("non-utf8"),
         },
+        ValParser::EnumVp => match s {
+            Ok(t) => {
+                if SIM_ENUM_LANGUAGE.iter().any(|(n, _)| if a.ignore_case { n.eq_ignore_ascii_case(t) } else { *n == t }) {
+                    Ok(())
+                } else {
+                    Err("bad-value")
+                }
+            }
+            Err(_) => Err("non-utf8"),
+        },
         ValParser::Edge(k) => match s {
             Ok(t) => {
                 let (_, lo, hi) = edge_language(*k);
